@@ -106,7 +106,7 @@ class GridMachine(BaseCheck):
             for rw in rows:
                 if k.random() < 0.3:
                     rw['lst'] = True
-        case = {'class': cls, 'gver': gver, 'rows': rows,
+        case = {'class': cls, 'gver': gver, 'rows': rows, 'plain_colmeta': k.random() < 0.4,
                 'lookup_every': k.choice([1, 1, 2, 3, 0]),
                 'ninit': k.choice([0, 0, 1, 2, 3, 4, nrows, 2 * nrows if cls != 'unique-str' else nrows])}
         kinds = ['append', 'insert', 'extend', 'iadd', 'set', 'del', 'delslice', 'pop', 'popi', 'remove',
@@ -222,6 +222,10 @@ class GridMachine(BaseCheck):
         hs = self.hszinc
         g = hs.Grid(version=case.get('gver'), metadata={'m1': 1, 'm2': hs.MARKER},
                     columns=[('id', []), ('n', [('unit', 'x')]), ('mk', [])])
+        if case.get('plain_colmeta'):
+            # column metadata assigned as a plain dict whose keys are not in alphabetical order (what the JSON
+            # reader produces): derived grids must carry it over unchanged, order included
+            g.column['mk'] = {'zeta': 1, 'alpha': 2, 'mid': 3}
         model = []
         for j in range(case.get('ninit', 0)):
             row = rows[j % len(rows)]
@@ -592,7 +596,7 @@ class GridMachine(BaseCheck):
                 if len(srows) != len(want) or any(x is not y for x, y in zip(srows, want)):
                     return 'slice', {'slice': [a, b, c], 'got_len': len(srows), 'want_len': len(want)}
                 if str(s.version) != str(g.version) or list(s.metadata.items()) != list(g.metadata.items()) \
-                        or list(s.column.keys()) != list(g.column.keys()):
+                        or [(cn, list(cm.items())) for cn, cm in s.column.items()] != [(cn, list(cm.items())) for cn, cm in g.column.items()]:
                     return 'slice', {'slice': [a, b, c], 'why': 'version/metadata/columns differ'}
             for row in rows:
                 if (row in g) != (row in model):
